@@ -12,7 +12,7 @@ From Coq Require Import List Arith Bool ZArith.
 From VBase Require Import FieldOps.
 From VModel Require Import FFT FFTSplit.
 From VGen Require Import FftIndex.
-From VProofs Require Import FFTSpec FFTRefine FFTEval FFTOffset FFTSegments FFTPermU64 FFTNoPanic FFTGen FFTSplit FFTTranspose FFTF17 FFTExamples.
+From VProofs Require Import FFTSpec FFTRefine FFTEval FFTOffset FFTSegments FFTPermU64 FFTNoPanic FFTGen FFTSplit FFTTranspose FFTConcurrent FFTSplitRows FFTF17 FFTExamples.
 Import ListNotations.
 Open Scope nat_scope.
 
@@ -352,6 +352,71 @@ Theorem C09_evaluate_poly_concurrent_spec : forall (F : Type) (O : FOps F), FLaw
   evaluate_poly_concurrent O p tw = Some (map (fun i => peval O p (fpow O w i)) (seq 0 (2 ^ (S K + S K + s)))).
 Proof. exact @evaluate_poly_concurrent_correct. Qed.
 Print Assumptions C09_evaluate_poly_concurrent_spec.
+
+(* the row ([[B; N]]) instance — prover/src/matrix/segments.rs mod concurrent: split_radix_fft at the pointwise row
+   operations equals the serial row FFT (every column undergoes the scalar split radix = scalar fft_in_place) *)
+Theorem C09_split_radix_rows_is_fft : forall (F : Type) (O : FOps F), FLaws O ->
+  forall (N : nat) (tw : list F) (K s : nat) (w : F) (rows : list (list F)),
+  0 < N -> s <= 1 -> wf_rows N rows -> length rows = 2 ^ (S K + S K + s) -> length tw = 2 ^ (S K + K + s) ->
+  tw_ok O tw (S K + S K + s) w -> root_cond O (S K + S K + s) w ->
+  split_radix_fft (rows_ops O N) rows (map (fun t => repeat t N) tw)
+    = Some (fft_in_place_top (rows_ops O N) rows (map (fun t => repeat t N) tw)).
+Proof. exact @split_radix_rows_is_fft. Qed.
+Print Assumptions C09_split_radix_rows_is_fft.
+
+(* Segment::new_with_buffer: the concurrent branch (copy_polys / copy_polys_partial, split_radix_fft on rows,
+   concurrent::permute) computes the same segment as the serial branch — also the same panic outcome of the asserts —
+   for every segment width N >= 1, column offset, offsets vector (any domain size), trace length 4^(K+1) or
+   2*4^(K+1).  (A trace of length 2 with a domain >= 1024 makes the concurrent branch panic inside split_radix_fft:
+   outside the hypotheses, see notes.) *)
+Theorem C09_segment_concurrent_eq_serial : forall (F : Type) (O : FOps F), FLaws O ->
+  forall (N : nat) (polys : list (list F)) (poly_offset : nat) (offsets tw : list F) (K s : nat) (w : F),
+  0 < N -> s <= 1 -> length (hd [] polys) = 2 ^ (S K + S K + s) -> length tw = 2 ^ (S K + K + s) ->
+  tw_ok O tw (S K + S K + s) w -> root_cond O (S K + S K + s) w ->
+  segment_new_concurrent O N polys poly_offset offsets tw = segment_new O N polys poly_offset offsets tw.
+Proof. exact @segment_concurrent_eq_serial. Qed.
+Print Assumptions C09_segment_concurrent_eq_serial.
+
+Theorem C09_rowmatrix_concurrent_eq_serial : forall (F : Type) (O : FOps F), FLaws O ->
+  forall (root_of_unity : nat -> F) (N : nat) (polys : list (list F)) (tw : list F) (offset : F) (blowup K s : nat) (w : F),
+  s <= 1 -> length (hd [] polys) = 2 ^ (S K + S K + s) -> length tw = 2 ^ (S K + K + s) ->
+  tw_ok O tw (S K + S K + s) w -> root_cond O (S K + S K + s) w ->
+  evaluate_polys_over_concurrent O root_of_unity N polys tw offset blowup
+    = evaluate_polys_over O root_of_unity N polys tw offset blowup.
+Proof. exact @evaluate_polys_over_concurrent_eq. Qed.
+Print Assumptions C09_rowmatrix_concurrent_eq_serial.
+
+(* the wrappers of math/src/fft/concurrent.rs (batched scalings as sequential maps: C14_scale_par_spec,
+   C14_get_power_series_with_offset_any_T) satisfy the specifications of their serial counterparts *)
+Theorem C09_concurrent_wrappers_spec : forall (F : Type) (O : FOps F), FLaws O ->
+  forall (K s : nat), s <= 1 ->
+  (* evaluate_poly_with_offset: result[i] = p(offset * g^i) *)
+  (forall (root_of_unity : nat -> F) (tw : list F) (b : nat) (g offset : F) (p : list F),
+     length p = 2 ^ (S K + S K + s) -> length tw = 2 ^ (S K + K + s) ->
+     root_of_unity (S K + S K + s + b) = g -> root_cond O (S K + S K + s + b) g ->
+     tw_ok O tw (S K + S K + s) (fpow O g (2 ^ b)) -> offset <> fzero O ->
+     evaluate_poly_with_offset_concurrent O root_of_unity p tw offset (2 ^ b)
+       = Some (map (fun i => peval O p (fmul O offset (fpow O g i))) (seq 0 (2 ^ (S K + S K + s + b))))) /\
+  (* interpolate_poly inverts evaluation *)
+  (forall (itw : list F) (w winv : F) (p : list F),
+     length p = 2 ^ (S K + S K + s) -> length itw = 2 ^ (S K + K + s) ->
+     root_cond O (S K + S K + s) w -> fmul O w winv = fone O -> tw_ok O itw (S K + S K + s) winv ->
+     fmul O (two_pow_f O (S K + S K + s)) (n_inv O (S K + S K + s)) = fone O ->
+     interpolate_poly_concurrent O (map (fun i => peval O p (fpow O w i)) (seq 0 (2 ^ (S K + S K + s)))) itw = Some p) /\
+  (* interpolate_poly_with_offset inverts evaluation over the coset *)
+  (forall (itw : list F) (w winv offset : F) (p : list F),
+     length p = 2 ^ (S K + S K + s) -> length itw = 2 ^ (S K + K + s) ->
+     root_cond O (S K + S K + s) w -> fmul O w winv = fone O -> tw_ok O itw (S K + S K + s) winv -> offset <> fzero O ->
+     fmul O (two_pow_f O (S K + S K + s)) (n_inv O (S K + S K + s)) = fone O ->
+     interpolate_poly_with_offset_concurrent O
+       (map (fun i => peval O p (fmul O offset (fpow O w i))) (seq 0 (2 ^ (S K + S K + s)))) itw offset = Some p).
+Proof.
+  exact (fun F O L K s Hs =>
+    conj (fun r tw b g off p Hl Hlt => evaluate_poly_with_offset_concurrent_correct O L r tw K s b g off p Hs Hl Hlt)
+   (conj (fun itw w winv p Hl Hlt => interpolate_poly_concurrent_correct O L itw K s w winv p Hs Hl Hlt)
+         (fun itw w winv off p Hl Hlt => interpolate_poly_with_offset_concurrent_correct O L itw K s w winv off p Hs Hl Hlt))).
+Qed.
+Print Assumptions C09_concurrent_wrappers_spec.
 
 (* ------------------------------------------------------------------ non-vacuity (Z/17, w = 3 of order 16) *)
 Theorem C09_nonvacuous_field : FLaws f17_ops.
